@@ -345,6 +345,13 @@ def eval_case(c):
         # the option combination (a named integrator together with the full output) is the same gradient
         compare("sensitivity(theta, full_output=True, method='lsoda')[0]",
                 run("sensitivity(full_output, lsoda)", lambda: obj.sensitivity(th, full_output=True, method="lsoda")[0]), want)
+        # theta omitted: the gradient at the object's own theta (the last one it was given, th) — whatever somebody else has
+        # meanwhile assigned to the parameters of the shared model object
+        def omitted():
+            names = c["target_param"] if c["target_param"] is not None else [str(p) for p in obj._ode.param_list]
+            obj._ode.parameters = {nm: float(v) * 1.4 + 0.05 for nm, v in zip(names, th)}
+            return obj.sensitivity()
+        compare("sensitivity() with theta omitted, after the shared model was given other values", run("sensitivity()", omitted), want)
         J = run("jac", lambda: obj.jac(th))
         if J is not None:
             with quiet():
